@@ -95,7 +95,7 @@ def reach (s : Sig) : List (Cls × PDict) → Call → Call
 a `cache_func` takes the dict object over (`kw = function._kwargs; kw.update(kwargs)`), and the shallow `copy(function)` shares
 it.  So the cache layer's dict SURVIVES re-wrapping: `g1 = cache_func(f); g1(1); g2 = cache_func(try_none(g1)); g2(1)` does
 not execute `f` again.  In the model the dict lives in `HSt`, outside the chain: a construction step changes the chain (`mk`)
-and keeps the state.  (Only the newest object is called: the constructor edits inner objects of its operand in place.) -/
+and keeps the state.  (Only the newest object is called here; older objects called again: `runMulti` below.) -/
 
 inductive HStep where
   | call (c : Call)
